@@ -129,7 +129,7 @@ package mbapp
 //@   ensures ret.Counter == be32at(h, 8) && ret.OriginTime == be32at(h, 4)
 //@ func (Header).getUint32Bit
 //@   requires 0 <= n && n < 6 && len(h) == 24
-//@   pure
+//@   inline
 //@ func (Header).setUint32Bit
 //@   requires 0 <= n && n < 6 && len(h) == 24
 //@   inline
